@@ -65,27 +65,27 @@ type Frame struct {
 type LockState struct {
 	H      int8 // handle lock: 0 none, 1 R, 2 W
 	HDepth int8
-	S, M   int8 // store / map lock depth
-	SW, MW bool // held in write mode
+	S, M   int8    // store / map lock depth
+	SW, MW bool    // held in write mode
 	Si, Mi [3]int8 // depth per instance: 0 cache store, 1 pending store, 2 unknown
-	T      int8 // any other package mutex (e.g. a schema-table mutex)
+	T      int8    // any other package mutex (e.g. a schema-table mutex)
 }
 
 type State struct {
-	frames []Frame
-	env    map[vkey]Sym
-	cells  map[vkey]Sym
-	facts  map[Sym]Fact
-	must   EffSet
-	may    EffSet
-	stale  EffSet // success facts established before the handle lock was last released (and not re-established since)
-	lk     LockState
-	iter   EffSet // effects since the last loop-iteration mark (ITER queries)
-	lenpos map[vkey]tri // is len(param) > 0 ? (correlates loops over the same slice)
-	memo   map[memoKey]Sym // value last loaded from (object, field): repeated loads of a field see the same abstract value
-	User   uint64       // scratch bits owned by the rule listener (part of the state identity)
-	steps  int
-	mask   EffSet
+	frames    []Frame
+	env       map[vkey]Sym
+	cells     map[vkey]Sym
+	facts     map[Sym]Fact
+	must      EffSet
+	may       EffSet
+	stale     EffSet // success facts established before the handle lock was last released (and not re-established since)
+	lk        LockState
+	iter      EffSet          // effects since the last loop-iteration mark (ITER queries)
+	lenpos    map[vkey]tri    // is len(param) > 0 ? (correlates loops over the same slice)
+	memo      map[memoKey]Sym // value last loaded from (object, field): repeated loads of a field see the same abstract value
+	User      uint64          // scratch bits owned by the rule listener (part of the state identity)
+	steps     int
+	mask      EffSet
 	trackIter bool
 	iterDepth int // frame depth of the tracked loop
 }
@@ -130,22 +130,22 @@ const (
 )
 
 type Event struct {
-	Kind   EvKind
-	Eff    Eff
-	Instr  ssa.Instruction
-	Tags   Tag // subject tags (base object / path)
-	VTags  Tag // tags of the stored value, if any
-	Callee *ssa.Function
+	Kind    EvKind
+	Eff     Eff
+	Instr   ssa.Instruction
+	Tags    Tag // subject tags (base object / path)
+	VTags   Tag // tags of the stored value, if any
+	Callee  *ssa.Function
 	Results []Fact // EvCallRet: facts of the returned values
-	VFact  Fact   // EvStoreResult: fact of the stored value
+	VFact   Fact   // EvStoreResult: fact of the stored value
 	// lock events
 	LockClass string // "H","S","M","T"
 	LockInst  int    // for S / M: 0 cache store, 1 pending store, 2 unknown
 	LockOp    extKind
 	// access events
-	Struct *types.Named
-	Field  *types.Var
-	Write  bool
+	Struct  *types.Named
+	Field   *types.Var
+	Write   bool
 	BaseNil tri // nil-ness of the pointer the field was reached through
 	VNil    tri // nil-ness of the stored value (writes)
 }
@@ -157,42 +157,42 @@ type Listener interface {
 }
 
 type Explorer struct {
-	P        *Prog
-	C        *Closures
-	Root     *ssa.Function
-	Val      Valuation
-	L        Listener
-	MaxDepth int
-	MaxStates int
-	AssumeTblStable bool // after a successful schema acquisition, table lookups hit
+	P                  *Prog
+	C                  *Closures
+	Root               *ssa.Function
+	Val                Valuation
+	L                  Listener
+	MaxDepth           int
+	MaxStates          int
+	AssumeTblStable    bool // after a successful schema acquisition, table lookups hit
 	AssumeStorePresent bool // comma-ok lookups of a per-type map in an object store succeed (rules about "what is pending gets flushed")
-	Trace    string
-	InitFree map[int]Fact // closure roots: facts about the captured variables at the spawn site(s); key = free variable index
-	InitFreeIsCell map[int]bool // the free variable is the address of a captured variable (fact describes its content)
-	InitParam      map[int]Fact // named goroutine roots: facts about the parameters (receiver first) at the spawn site(s)
-	Mask     EffSet // effects tracked in must/may (others are reported as events but not remembered)
-	Opaque   EffSet // a callee whose closure is within this set is not inlined
+	Trace              string
+	InitFree           map[int]Fact // closure roots: facts about the captured variables at the spawn site(s); key = free variable index
+	InitFreeIsCell     map[int]bool // the free variable is the address of a captured variable (fact describes its content)
+	InitParam          map[int]Fact // named goroutine roots: facts about the parameters (receiver first) at the spawn site(s)
+	Mask               EffSet       // effects tracked in must/may (others are reported as events but not remembered)
+	Opaque             EffSet       // a callee whose closure is within this set is not inlined
 
 	// loop-body mode
 	LoopFn     *ssa.Function
 	LoopHeader *ssa.BasicBlock
 	LoopBlocks map[*ssa.BasicBlock]bool
 
-	visited  map[uint64]struct{}
-	ids      map[ssa.Value]int
-	fnids    map[*ssa.Function]int
-	fldids   map[*types.Var]int
-	live     map[*ssa.Function]*liveInfo
-	hbuf     []byte
-	ebuf     []struct {
+	visited map[uint64]struct{}
+	ids     map[ssa.Value]int
+	fnids   map[*ssa.Function]int
+	fldids  map[*types.Var]int
+	live    map[*ssa.Function]*liveInfo
+	hbuf    []byte
+	ebuf    []struct {
 		a, b, c int
 		s       Sym
 	}
-	States   int
-	Stat     map[string]int
-	Paths    int
+	States    int
+	Stat      map[string]int
+	Paths     int
 	Undecided []string
-	work     []*State
+	work      []*State
 }
 
 type liveInfo struct {
